@@ -134,14 +134,14 @@ def get_branch_type(opcode: int) -> bool | None:  # noqa: D103
             | "POP_JUMP_IF_NOT_NONE"
             | "INSTRUMENTED_POP_JUMP_IF_TRUE"
             | "INSTRUMENTED_POP_JUMP_IF_NOT_NONE"
+            | "POP_JUMP_IF_NONE"
+            | "INSTRUMENTED_POP_JUMP_IF_NONE"
         ):
             return True
         case (
             "POP_JUMP_IF_FALSE"
-            | "POP_JUMP_IF_NONE"
             | "FOR_ITER"
             | "INSTRUMENTED_POP_JUMP_IF_FALSE"
-            | "INSTRUMENTED_POP_JUMP_IF_NONE"
         ):
             return False
         case _:
